@@ -381,7 +381,8 @@ simulated reads, for every constant and graphical function, the scenario's value
 own otherwise, and integrates from the scenario's start time to its stop time with its dt; (2) file-channel
 run specs are the scenario's; (3) **every** scenario of a manager carries `scenario ⊕ base` completed by the
 settings addressed to it — for all histories of registrations and settings on the manager's scenarios —
-and the manager's base values are never rewritten. -/
+and the manager's base values are never rewritten; (4) a run-spec override is taken over whenever its key is present —
+whatever its value, `starttime: 0` included (registration, scenario files, session settings go through `rsOver`). -/
 def C07_full (c : Cfg) : Prop :=
   (∀ (m : ModelSt) (s : Settings) (k : Nat),
     (applyTo c m s).const k = over (lastOf s.consts) m.const k ∧
@@ -390,7 +391,8 @@ def C07_full (c : Cfg) : Prop :=
   (∀ (mrs : RunSpec) (files : List FileEntry) (d : Dict), (resolveFile c mrs files d).rs = mrs.override d) ∧
   (∀ (mrs : RunSpec) (bc bp : Store) (ops : List MOp) (i : Nat),
     mview (mexec c mrs bc bp ops) i = msolo mrs bc bp i ops ∧
-    (mexec c mrs bc bp ops).bc = bc ∧ (mexec c mrs bc bp ops).bp = bp)
+    (mexec c mrs bc bp ops).bc = bc ∧ (mexec c mrs bc bp ops).bp = bp) ∧
+  (∀ (r : RunSpec) (d : Dict), rsOver c r d = r.override d)
 
 theorem C07_partial (c : Cfg) (m : ModelSt) (s : Settings) (k : Nat) :
     (applyTo c m s).const k = over (lastOf s.consts) m.const k ∧
@@ -400,9 +402,9 @@ theorem C07_partial (c : Cfg) (m : ModelSt) (s : Settings) (k : Nat) :
 
 theorem C07_full_of_good (c : Cfg) (h : c.good = true) : C07_full c := by
   simp only [Cfg.good, Bool.and_eq_true] at h
-  refine ⟨fun m s k => ⟨get_update _ _ _, get_update _ _ _, ?_⟩, fun mrs files d => by simp [resolveFile, h.1.2],
-          fun mrs bc bp ops i => siblings_isolated c h.2 mrs bc bp ops i⟩
-  simp [applyTo, h.1.1]
+  refine ⟨fun m s k => ⟨get_update _ _ _, get_update _ _ _, ?_⟩, fun mrs files d => by simp [resolveFile, h.1.1.2],
+          fun mrs bc bp ops i => siblings_isolated c h.1.2 mrs bc bp ops i, fun r d => by simp [rsOver, h.2]⟩
+  simp [applyTo, h.1.1.1]
 
 /-- `applied = effective` composed with the dict channel: scenario wins, base fills, model's own otherwise
 (for dictionaries without repeated keys `lastOf = get`; stated through `lastOf` of the completed store). -/
@@ -415,35 +417,50 @@ theorem C07_applied_dict (c : Cfg) (h : c.good = true) (m : ModelSt) (bc bp : St
 theorem C07_no_override (c : Cfg) (h : c.good = true) (m : ModelSt) :
     applyTo c m (resolveDict m.rs [] [] { consts := [], pts := [], start := none, stop := none, dt := none }) = m := by
   simp only [Cfg.good, Bool.and_eq_true] at h
-  simp [applyTo, resolveDict, Store.fill, Store.update, RunSpec.override, h.1.1]
+  simp [applyTo, resolveDict, Store.fill, Store.update, RunSpec.override, h.1.1.1]
 
 theorem C07_witness_start (c : Cfg) (h : c.runspecStartApplied = false) : ¬ C07_full c := by
   intro hf
   have := (hf.1 { eqs := [], pts := [], rs := ⟨0, 4, 1⟩ } { consts := [], pts := [], rs := ⟨1, 3, 1⟩ } 0).2.2
-  obtain ⟨a, b, o⟩ := c
+  obtain ⟨a, b, o, q⟩ := c
   simp only at h; subst h
-  revert this; cases b <;> cases o <;> decide
+  revert this; cases b <;> cases o <;> cases q <;> decide
 
 theorem C07_witness_file (c : Cfg) (h : c.fileRunspecsKept = false) : ¬ C07_full c := by
   intro hf
   have := hf.2.1 ⟨0, 4, 1⟩ [] { consts := [], pts := [], start := some 1, stop := some 3, dt := none }
-  obtain ⟨a, b, o⟩ := c
+  obtain ⟨a, b, o, q⟩ := c
   simp only at h; subst h
-  revert this; cases a <;> cases o <;> decide
+  revert this; cases a <;> cases o <;> cases q <;> decide
 
 /-- dictionary identity as a mechanism fact: when a scenario without an own block receives the manager's base
 dictionary itself, settings for one scenario rewrite the base values for a sibling registered BEFORE and
 one registered AFTER (and the manager's base values themselves). -/
 theorem C07_witness_shared_base (c : Cfg) (h : c.scenarioOwnsDicts = false) : ¬ C07_full c := by
   intro hf
-  have := (hf.2.2 ⟨0, 4, 1⟩ [(0, 2)] []
+  have := (hf.2.2.1 ⟨0, 4, 1⟩ [(0, 2)] []
     [.add 0 emptyDict, .add 1 emptyDict, .configure 1 { emptyDict with consts := [(0, 5)] }, .add 2 emptyDict] 0).1
-  obtain ⟨a, b, o⟩ := c
+  obtain ⟨a, b, o, q⟩ := c
   simp only at h; subst h
-  revert this; cases a <;> cases b <;> decide
+  revert this; cases a <;> cases b <;> cases q <;> decide
+
+/-- truthiness instead of presence: model start 1, override `starttime: 0` — the scenario keeps start 1 -/
+theorem C07_witness_falsy_override (c : Cfg) (h : c.overrideByPresence = false) : ¬ C07_full c := by
+  intro hf
+  have := hf.2.2.2 ⟨1, 5, 2⟩ { emptyDict with start := some 0 }
+  obtain ⟨a, b, o, q⟩ := c
+  simp only at h; subst h
+  revert this; cases a <;> cases b <;> cases o <;> decide
+
+/-- with the fact, the channels as the code runs them are the channels the statement demands -/
+theorem resolveC_eq (c : Cfg) (h : c.overrideByPresence = true) (mrs : RunSpec) (bc bp : Store) (files : List FileEntry)
+    (s : Settings) (d : Dict) :
+    resolveDictC c mrs bc bp d = resolveDict mrs bc bp d ∧ resolveFileC c mrs files d = resolveFile c mrs files d ∧
+    resolveSettingsC c s d = resolveSettings s d := by
+  simp [resolveDictC, resolveFileC, resolveSettingsC, rsOver, h, resolveDict, resolveFile, resolveSettings]
 
 /-- the same history, read at the late scenario and at the manager: all three are rewritten -/
-example : ∀ a b, let c : Cfg := ⟨a, b, false⟩
+example : ∀ a b, let c : Cfg := ⟨a, b, false, true⟩
     let st := mexec c ⟨0, 4, 1⟩ [(0, 2)] []
       [.add 0 emptyDict, .add 1 emptyDict, .configure 1 { emptyDict with consts := [(0, 5)] }, .add 2 emptyDict]
     ((mview st 0).map (·.consts), (mview st 2).map (·.consts), st.bc) = (some [(0, 5)], some [(0, 5)], [(0, 5)]) := by
@@ -452,7 +469,7 @@ example : ∀ a b, let c : Cfg := ⟨a, b, false⟩
 /-- Non-vacuity: base constants spread over two files, scenario overriding one of them, run specs given. -/
 example :
     let files : List FileEntry := [⟨[(0, 5), (1, 6)], [], []⟩, ⟨[(2, 7)], [(0, 9)], []⟩]
-    let s := resolveFile ⟨true, true, true⟩ ⟨0, 4, 2⟩ files { consts := [(1, 60)], pts := [], start := some 1, stop := none, dt := some 1 }
+    let s := resolveFile ⟨true, true, true, true⟩ ⟨0, 4, 2⟩ files { consts := [(1, 60)], pts := [], start := some 1, stop := none, dt := some 1 }
     (Store.get s.consts 0, Store.get s.consts 1, Store.get s.consts 2, Store.get s.pts 0, s.rs) =
       (some 5, some 60, some 7, some 9, ⟨1, 4, 1⟩) := by decide
 
@@ -472,5 +489,7 @@ example :
 #print axioms siblings_isolated
 #print axioms sibling_reads_base
 #print axioms C07_witness_shared_base
+#print axioms C07_witness_falsy_override
+#print axioms resolveC_eq
 
 end Bptk.C07
